@@ -381,6 +381,44 @@ def check_all(ctx, cov, items, dev, kinds, budget=None, cap=250, timeout=1500):
     cov.timing['load_plan_replay_s'] = round(time.time() - t0, 1)
 
 
+def simulate(ctx, cov, name, c, dev, kinds, num, depth):
+    """behaviours of a configuration too large to dump, generated by `tlc -simulate` (seeded) and replayed"""
+    import glob
+    t0 = time.time()
+    c = with_dev(c, dev)
+    if c['Blobs']:
+        kinds = tuple(k for k in kinds if k != 'mapping')
+    wd = os.path.join(ctx.scratch, 'sim-' + name)
+    out = os.path.join(wd, 'out')
+    os.makedirs(out, exist_ok=True)
+    r = tlc.run(SPEC, cfg(ctx, 'sim-' + name, c), workdir=wd, simulate='file=%s/tr,num=%d' % (out, num), depth=depth,
+                seed=ctx.seed + 1, workers=1, timeout=1500)
+    if not r.ok:
+        raise tlc.TLCError('simulation %s: %s\n%s' % (name, r.violation, r.output[-2000:]))
+    ctx.model['runs'].append(dict(r.summary(), name='simulate-' + name))
+    files = sorted(glob.glob(os.path.join(out, 'tr_*')))
+    jobs = []
+    for j, ch in enumerate(par.chunks(files, (os.cpu_count() or 4) * 4)):
+        if ch:
+            jobs.append((ch, c, os.path.join(ctx.scratch, 'rs-%s-%d' % (name, j)),
+                         [job_opts(ctx, j * 1000 + i, kinds, c['Obj']) for i in range(len(ch))]))
+    results = [x for chunk in par.pmap(cg.replay_files, jobs) for x in chunk]
+    for res in results:
+        for m in res['monitor']:
+            m['step'] += 1
+        if res['mismatch']:
+            res['mismatch']['step'] += 1
+    annotate(results, c, lambda res: res['_steps'], 'simulation ' + name)
+    for res in results:
+        res.pop('_steps', None)
+    judge(ctx, cov, results)
+    cov.graphs['simulate-' + name] = {
+        'behaviours': len(results), 'replayed_steps': sum(x['steps'] for x in results), 'sampled': True, 'simulated': True,
+        'diverged_tours': sum(1 for x in results if x['diverged']), 'transitions': 0, 'transitions_planned': 0,
+        'constants': {k: c[k] for k in ('Obj', 'Blobs', 'Edges', 'Pre', 'MaxSp', 'MaxCommit', 'MaxOther', 'MaxAct', 'MaxTail', 'Ops')},
+        'storages': list(kinds), 'wall_s': round(time.time() - t0, 1)}
+
+
 def finish(ctx, cov, need, rule, dev):
     if not ctx.violations and not ctx.known:
         lacking = [a for a in need if not cov.actions.get(a)]
@@ -389,7 +427,7 @@ def finish(ctx, cov, need, rule, dev):
         for name, st in cov.graphs.items():
             if not st['sampled'] and st['transitions_planned'] != st['transitions']:
                 raise RuntimeError('plan did not cover graph %s: %r' % (name, st))
-    exhaustive = bool(cov.graphs) and all(not st['sampled'] for st in cov.graphs.values())
+    exhaustive = bool(cov.graphs) and all(not st['sampled'] for st in cov.graphs.values() if not st.get('simulated'))
     return ctx.finish({
         'evaluations': cov.tours,
         'distinct_nontrivial': len(cov.nontrivial),
